@@ -510,6 +510,8 @@ class Run:
                     continue
                 if op[0] in ("kill", "failext", "forkfail") and (op[1] not in vc.procs or vc.procs[op[1]].state != "ready"):
                     continue
+                if op[0] == "spawn" and op[1] == "trysubmit" and not self.stage_open_for_user(op[2]):
+                    continue            # (a user command against a submission that is still being created is not legal use)
                 fk = fault_kind(op)
                 if fk:
                     self.faults.append(fk)
@@ -845,7 +847,7 @@ class SysPipeSuite(Suite):
     case_timeout = 180
 
     def cases(self, rng, tier, prop):
-        n = {"quick": 140, "thorough": 3200}[tier]
+        n = {"quick": 280, "thorough": 3000}[tier]
         out = []
         for i in range(n):
             mode = "plain" if i % 5 in (0, 3) else "faults"
@@ -939,8 +941,15 @@ class SysPipeSuite(Suite):
         return t
 
     def shrink(self, case):
+        if "script" in case:
+            return
         ops = case.get("ops")
         if ops is None:
+            # first step: the same run with its schedule written out (then suffixes are cut; the rest of a cut run is the
+            # fixed fair schedule of Run.drain)
+            r = _run_case(case)
+            if "obs" in r:
+                yield dict(case, ops=r["obs"]["ops"])
             return
         n = len(ops)
         for cut in (n // 2, n * 3 // 4, n - 5, n - 1):
